@@ -2,6 +2,7 @@ import Lean.Data.Json
 import ArcaModel.Model.Dispatch
 import ArcaModel.Model.DispatchFunc
 import ArcaModel.Model.DispatchCodegen
+import ArcaModel.Model.DispatchStep
 /-
   Line-protocol driver: one JSON case per input line, one JSON result per output line.
   Runs the model's executable definitions; used by the correspondence checks.
@@ -10,7 +11,7 @@ open Lean Arca
 
 /-- every model's line-protocol handler: `op name → case → result` -/
 def handlers : List (String → Json → Option (Except String Json)) :=
-  [Arca.Dispatch.schemaHandler, Arca.Dispatch.funcHandler, Arca.Dispatch.codegenHandler]
+  [Arca.Dispatch.schemaHandler, Arca.Dispatch.funcHandler, Arca.Dispatch.codegenHandler, Arca.Dispatch.stepHandler]
 
 partial def loop (stdin stdout : IO.FS.Stream) : IO Unit := do
   let line ← stdin.getLine
